@@ -1,6 +1,7 @@
 import TrionModel.Lemmas.MapPut
 import TrionModel.Lemmas.MapRemove
 import TrionModel.Lemmas.MapErase
+import TrionModel.Lemmas.MapCount
 /-!
 # C15 — the sparse memory map behaves as an address-to-byte dictionary
 
@@ -11,8 +12,9 @@ Model: `Trion.Map` (Model/Map.lean), mirroring `MemoryMap`. Specification: `Trio
 `MInv ps` = segments ascending, non-empty, last address ≤ 0xFFFFFFFF, a gap of at least one address
 between neighbours (non-overlapping and maximally merged).
 
-Not proved here (correspondence only, see props/C15.json): `count`, `countRange`, `iterRange` and
-`find … Below` against the dictionary; freedom from index panics inside the Rust `put`/`remove_range`.
+Not proved here (correspondence only, see props/C15.json): the dictionary-level reading of `find … Below`
+(the index-level characterisation is `locate_spec`); freedom from index panics inside the Rust
+`put`/`remove_range`.
 -/
 namespace Trion.Map
 open Trion.Dict
@@ -148,6 +150,30 @@ theorem get_exact_agrees (ps : Segs) (a : Nat) (inv : MInv ps) :
     · rw [List.length_drop] at hi
       rw [a1 (a + i) (by omega) (by omega), List.getElem?_drop]
       congr 1; omega
+
+/-- C15 (count): never panics; (number of occupied addresses, saturated at u32::MAX, number of segments —
+which by `MInv` are the maximal runs). -/
+theorem count_agrees (ps : Segs) (inv : MInv ps) :
+    count ps = .ok (min (occupied (abs ps) 0 4294967296) u32Max, ps.length) :=
+  count_spec inv
+
+/-- C15 (count_range): never panics; (number of occupied addresses in `lo..=hi`, number of segments meeting
+the range). -/
+theorem countRange_agrees (ps : Segs) (lo hi : Nat) (inv : MInv ps) (h : lo ≤ hi) (hh : hi ≤ u32Max) :
+    countRange ps lo hi =
+      .ok (min (occupied (abs ps) lo (hi + 1 - lo)) u32Max, (ps.filter (meets lo hi)).length) :=
+  countRange_spec inv lo hi h hh
+
+/-- C15 (iter_range): never panics; exactly the segments meeting `lo..=hi`, in order, each clipped to the
+range (range and bytes). -/
+theorem iterRange_agrees (ps : Segs) (lo hi : Nat) (inv : MInv ps) (h : lo ≤ hi) (hh : hi ≤ u32Max) :
+    iterRange ps lo hi = .ok ((ps.filter (meets lo hi)).map fun s =>
+      ((max s.1 lo, min (segLast s) hi),
+        (s.2.take (min (segLast s) hi + 1 - s.1)).drop (max s.1 lo - s.1))) :=
+  iterRange_spec inv lo hi h hh
+
+example : countRange [(1, [1, 2, 3]), (7, [4])] 2 7 = .ok (3, 2) ∧
+    iterRange [(1, [1, 2, 3]), (7, [4])] 2 7 = .ok [((2, 3), [2, 3]), ((7, 7), [4])] := by decide
 
 /-! ### histories -/
 
